@@ -1,6 +1,334 @@
-/-! `pmodel speciate`: line-protocol driver (stub — replaced by the owner of this model). -/
-namespace Driver.Speciate
+import Std.Data.HashMap
+import PhreeqcVerif.Model.Util
+import PhreeqcVerif.Model.Speciation
+/-! `pmodel speciate`: recomputes a reported speciation from the independently parsed database text.
 
-def run : IO Unit := IO.eprintln "pmodel speciate: not implemented"
+stdin (numbers = 16 hex digits of the IEEE double):
+  db <name> / named … / master … / species … / phase … / enddb          (tools/dbparse.py `to_lines`)
+  kcalc <T> <P> <k0 dh a1..a6 dv>                                         → `kcalc <hex>`
+  case <id>
+    g <T> <P> <mu> <massWater> <tol> <minTotal> <waterSwitch 0|1> <phIsCb 0|1>
+    use <species>                       master species that is an unknown of the model
+    rw <species> <m0 species> <primary species> <pe name>     valence master rewritten relative to m0
+    pe <name> <n> (<species> <coef>)*   electron equation of a redox couple: e- = Σ … with log K from `pk`
+    pk <name> <k0 dh a1..a6 dv>
+    sp <name> <lm> <lg> <la> <moles>    species of the model, in the engine's order
+    ph <phase>                          phase whose SI is wanted
+    u <type> <moles> <f> <resid> <aux>  unknown of the model
+  endcase
+stdout per case: `case id`, then
+  rx <species> <n> (<tok> <coef>)* k <9 values>     rewritten equation (model)
+  lk <species> <lk rewritten(T)> <lk database form(T)>
+  lm <species> <lm from masters>                    molalities() assignment
+  res <species> <database mass-action residual>     | `res <species> missing <tok>`
+  alk <species> <alkalinity per mole>
+  tot <element> <moles> / cb <v> / mus <Σ z² moles> / mu <v> / talk <v> / pH <v>
+  si <phase> <SI> <lk(T)>  | `si <phase> missing <tok>`
+  gate <converged 0|1> <checkResiduals 0|1>
+  endcase -/
+namespace Driver.Speciate
+open PhreeqcVerif PhreeqcVerif.Util PhreeqcVerif.Thermo PhreeqcVerif.Speciation
+open Std (HashMap)
+
+abbrev F := Float
+
+instance : Inhabited (LogK F) := ⟨LogK.zero⟩
+
+structure RawK where
+  own : LogK F
+  adds : List (String × F)
+  deriving Inhabited
+
+structure DbSpecies where
+  name : String
+  z : F
+  body : List (String × F)
+  raw : RawK
+  elts : List (String × F)
+  deriving Inhabited
+
+structure DbMaster where
+  elt : String
+  species : String
+  alk : F
+  primary : Bool
+  deriving Inhabited
+
+structure DbPhase where
+  name : String
+  body : List (String × F)
+  raw : RawK
+  deriving Inhabited
+
+structure Db where
+  named : HashMap String RawK := {}
+  namedRes : HashMap String (LogK F) := {}
+  masters : Array DbMaster := #[]
+  species : HashMap String DbSpecies := {}
+  spK : HashMap String (LogK F) := {}
+  phases : HashMap String DbPhase := {}
+  primarySp : HashMap String Unit := {}
+  masterSp : HashMap String F := {}     -- species → alk of its (secondary, else primary) master
+  deriving Inhabited
+
+def hx (s : String) : F := (floatOfHex s).getD (0.0 / 0.0)
+def fx (x : F) : String := hexOfFloat x
+
+def zeroK : LogK F := LogK.zero
+
+/-- `<k0> <dh> <unit> <a1..a6>` → LogK with ΔH in kJ and the volume entry 0 -/
+def parseK (w : List String) : LogK F × List String :=
+  match w with
+  | k0 :: dh :: u :: a1 :: a2 :: a3 :: a4 :: a5 :: a6 :: rest =>
+    (⟨hx k0, dhToKJ (DHUnit.ofCode (u.toNat?.getD 0)) (hx dh), hx a1, hx a2, hx a3, hx a4, hx a5, hx a6, 0.0⟩, rest)
+  | _ => (zeroK, [])
+
+def takePairs : Nat → List String → List (String × F) → List (String × F) × List String
+  | 0, w, acc => (acc.reverse, w)
+  | n + 1, a :: b :: rest, acc => takePairs n rest ((a, hx b) :: acc)
+  | _, w, acc => (acc.reverse, w)
+
+def parsePairs (w : List String) : List (String × F) × List String :=
+  match w with
+  | n :: rest => takePairs (n.toNat?.getD 0) rest []
+  | [] => ([], [])
+
+def parseK9 (w : List String) : LogK F :=
+  match w with
+  | k0 :: dh :: a1 :: a2 :: a3 :: a4 :: a5 :: a6 :: dv :: _ => ⟨hx k0, hx dh, hx a1, hx a2, hx a3, hx a4, hx a5, hx a6, hx dv⟩
+  | _ => zeroK
+
+def showK (k : LogK F) : String :=
+  " ".intercalate [fx k.k0, fx k.dh, fx k.a1, fx k.a2, fx k.a3, fx k.a4, fx k.a5, fx k.a6, fx k.dv]
+
+/-- `add_logks`: resolve a named expression (recursively, depth ≤ 16 like the engine) -/
+def resolveNamed (named : HashMap String RawK) : Nat → String → Option (LogK F)
+  | 0, _ => none
+  | fuel + 1, n =>
+    match named[n.toLower]? with
+    | none => none
+    | some r =>
+      let adds := r.adds.filterMap fun (m, c) => (resolveNamed named fuel m).map fun k => (k, c)
+      if adds.length == r.adds.length then some (combineNamed r.own adds) else none
+
+def finishDb (d : Db) : Db := Id.run do
+  let mut named := d.named
+  -- the predefined constant expression of `-add_constant`
+  named := named.insert "xconstantx" { own := { zeroK with k0 := 1.0 }, adds := [] }
+  let mut res : HashMap String (LogK F) := {}
+  for (n, _) in named.toList do
+    match resolveNamed named 17 n with
+    | some k => res := res.insert n k
+    | none => pure ()
+  let mut spK : HashMap String (LogK F) := {}
+  for (n, s) in d.species.toList do
+    let adds := s.raw.adds.filterMap fun (m, c) => (res[m.toLower]?).map fun k => (k, c)
+    spK := spK.insert n (combineLogK s.raw.own adds)
+  let mut prim : HashMap String Unit := {}
+  let mut msp : HashMap String F := {}
+  for m in d.masters do
+    if m.elt == "Alkalinity" then continue
+    if m.primary then
+      prim := prim.insert m.species ()
+      if !(msp.contains m.species) then msp := msp.insert m.species m.alk
+    else
+      msp := msp.insert m.species m.alk
+  return { d with named := named, namedRes := res, spK := spK, primarySp := prim, masterSp := msp }
+
+def Db.phaseK (d : Db) (p : DbPhase) : LogK F :=
+  let adds := p.raw.adds.filterMap fun (m, c) => (d.namedRes[m.toLower]?).map fun k => (k, c)
+  combineLogK p.raw.own adds
+
+def identityEqn (n : String) : Eqn F := { head := n, body := [(n, 1.0)], k := zeroK }
+
+def Db.dbEqn (d : Db) (n : String) : Option (Eqn F) :=
+  match d.species[n]? with
+  | none => none
+  | some s => some { head := n, body := s.body, k := (d.spK[n]?).getD zeroK }
+
+/-- the code's `equal(coef, 0.0, 1e-5)` -/
+def dropTol (c : F) : Bool := Float.abs c ≤ 1e-5
+
+def fuelMax : Nat := 40
+
+/-- equation of a master species in terms of primary master species (`rxn_primary`) -/
+def Db.primaryForm (d : Db) (n : String) : Option (Eqn F) :=
+  if d.primarySp.contains n then some (identityEqn n) else
+  match d.dbEqn n with
+  | none => none
+  | some e =>
+    rewriteToMasters dropTol (fun m => d.primarySp.contains m)
+      (fun m => if d.primarySp.contains m then none else d.dbEqn m) fuelMax e
+
+structure Case where
+  id : String := ""
+  T : F := 298.15
+  P : F := 1.0
+  mu : F := 0.0
+  W : F := 1.0
+  tol : F := 1e-8
+  minTotal : F := 1e-25
+  waterSwitch : Bool := false
+  phIsCb : Bool := false
+  use : HashMap String Unit := {}
+  rw : Array (String × String × String × String) := #[]
+  pe : HashMap String (List (String × F)) := {}
+  pk : HashMap String (LogK F) := {}
+  sp : Array (String × F × F × F × F) := #[]
+  phs : Array String := #[]
+  us : Array (Unknown F) := #[]
+  deriving Inhabited
+
+def utype : String → UType
+  | "10" => .mb | "11" => .alk | "13" => .spb | "12" => .cb | "14" => .mu | "15" => .ah2o
+  | "16" => .mh | "17" => .mh2o | _ => .other
+
+def showBody (b : List (String × F)) : String :=
+  s!"{b.length}" ++ String.join (b.map fun (n, c) => s!" {n} {fx c}")
+
+def runCase (d : Db) (c : Case) (out : IO.FS.Stream) : IO Unit := do
+  out.putStrLn s!"case {c.id}"
+  let presPa := c.P * 101325.0
+  let K : LogK F → F := fun k => kCalc k c.T presPa
+  -- log activities: masters in use, H2O and e- report `la`; every other species `lm + lg`
+  let mut laM : HashMap String F := {}
+  let mut spset : HashMap String Unit := {}
+  for (n, lm, lg, la, _) in c.sp do
+    spset := spset.insert n ()
+    let v := if c.use.contains n || n == "H2O" || n == "e-" then la else logActivity lm lg
+    laM := laM.insert n v
+  let la : String → F := fun n => (laM[n]?).getD (0.0 / 0.0)
+  -- defining equations of the valence masters that are rewritten relative to the master in use
+  let mut rwDefs : HashMap String (Eqn F) := {}
+  for (m, m0, p, pe) in c.rw do
+    match d.primaryForm m, d.primaryForm m0 with
+    | some pm, some pm0 =>
+      let e0 := pivot p pm pm0
+      let mut e1 : Eqn F := { e0 with body := normalise dropTol e0.body }
+      if pe != "pe" then
+        match c.pe[pe]? with
+        | some body =>
+          let pd : Eqn F := { head := "e-", body := body, k := (c.pk[pe]?).getD zeroK }
+          let e2 := substOne "e-" pd e1
+          e1 := { e2 with body := normalise dropTol e2.body }
+        | none => pure ()
+      rwDefs := rwDefs.insert m e1
+    | _, _ => pure ()
+  let inUse : String → Bool := fun n => c.use.contains n
+  let defs : String → Option (Eqn F) := fun n =>
+    match rwDefs[n]? with
+    | some e => some e
+    | none => if d.masterSp.contains n then none else d.dbEqn n
+  let isMaster : String → Bool := fun n => d.masterSp.contains n
+  let secDefs : String → Option (Eqn F) := fun n => if d.masterSp.contains n then none else d.dbEqn n
+  let mut recs : Array (SpRec F) := #[]
+  for (n, lm, lg, _, moles) in c.sp do
+    let start : Option (Eqn F) := if d.masterSp.contains n then some (identityEqn n) else d.dbEqn n
+    match start with
+    | none => out.putStrLn s!"rx {n} unknown-species"
+    | some e0 =>
+      match rewriteToMasters dropTol inUse defs fuelMax e0 with
+      | none => out.putStrLn s!"rx {n} not-reduced"
+      | some e =>
+        out.putStrLn s!"rx {n} {showBody e.body} k {showK e.k}"
+        let lkx := K e.k
+        let lkdb := K ((d.spK[n]?).getD zeroK)
+        out.putStrLn s!"lk {n} {fx lkx} {fx lkdb}"
+        out.putStrLn s!"lm {n} {fx (speciateLm lkx lg la e.body)}"
+    -- database mass-action residual with the reported activities
+    if !(d.masterSp.contains n) || rwDefs.contains n then
+      match (if d.masterSp.contains n then rwDefs[n]? else d.dbEqn n) with
+      | some e =>
+        match e.body.find? (fun p => !(spset.contains p.1)) with
+        | some p => out.putStrLn s!"res {n} missing {p.1}"
+        | none => out.putStrLn s!"res {n} {fx (residual la K e)}"
+      | none => pure ()
+    -- alkalinity per mole from the master species of the secondary form
+    let alk : F :=
+      match (if d.masterSp.contains n then some (identityEqn n) else d.dbEqn n) with
+      | some e0 =>
+        match rewriteToMasters dropTol isMaster secDefs fuelMax e0 with
+        | some e => speciesAlk (fun m => (d.masterSp[m]?).getD 0.0) e
+        | none => 0.0 / 0.0
+      | none => 0.0 / 0.0
+    out.putStrLn s!"alk {n} {fx alk}"
+    let z := ((d.species[n]?).map (·.z)).getD 0.0
+    let elts := ((d.species[n]?).map (·.elts)).getD []
+    recs := recs.push { name := n, z := z, moles := moles, alk := alk, elts := elts }
+    let _ := lm
+  let rl := recs.toList
+  let mut seen : HashMap String Unit := {}
+  for r in rl do
+    for (e, _) in r.elts do
+      if !(seen.contains e) then
+        seen := seen.insert e ()
+        out.putStrLn s!"tot {e} {fx (total e rl)}"
+  -- H2O, H+ and e- carry no charge/alkalinity sums in the engine only through their z/alk, which the records hold
+  out.putStrLn s!"cb {fx (chargeBalance rl)}"
+  out.putStrLn s!"mus {fx (ionicSum rl)}"
+  out.putStrLn s!"mu {fx (ionicStrength rl c.W)}"
+  out.putStrLn s!"talk {fx (alkalinity rl)}"
+  out.putStrLn s!"pH {fx (pH la)}"
+  for pn in c.phs do
+    match d.phases[pn]? with
+    | none => out.putStrLn s!"si {pn} unknown-phase"
+    | some p =>
+      match p.body.find? (fun q => !(spset.contains q.1)) with
+      | some q => out.putStrLn s!"si {pn} missing {q.1}"
+      | none =>
+        let lk := K (d.phaseK p)
+        out.putStrLn s!"si {pn} {fx (satIndex la lk p.body)} {fx lk}"
+  let ctx : GateCtx F := { tol := c.tol, minTotal := c.minTotal, mu := c.mu, massWater := c.W,
+                           waterSwitch := c.waterSwitch, phIsCb := c.phIsCb }
+  let b2 (b : Bool) : String := if b then "1" else "0"
+  out.putStrLn s!"gate {b2 (converged ctx c.us.toList)} {b2 (checkResiduals ctx c.us.toList)}"
+  out.putStrLn "endcase"
+
+def run : IO Unit := do
+  let stdin ← IO.getStdin
+  let out ← IO.getStdout
+  let mut db : Db := {}
+  let mut cur : Case := {}
+  repeat
+    let line ← stdin.getLine
+    if line.isEmpty then break
+    let w := words line
+    match w with
+    | "db" :: _ => db := {}
+    | "named" :: n :: rest =>
+      let (k, r1) := parseK rest
+      let (adds, _) := parsePairs r1
+      db := { db with named := db.named.insert n { own := k, adds := adds } }
+    | ["master", e, s, alk, p] =>
+      db := { db with masters := db.masters.push { elt := e, species := s, alk := hx alk, primary := p == "1" } }
+    | "species" :: n :: z :: rest =>
+      let (k, r1) := parseK rest
+      let (body, r2) := parsePairs r1
+      let (adds, r3) := parsePairs r2
+      let (elts, _) := parsePairs r3
+      db := { db with species := db.species.insert n { name := n, z := hx z, body := body, raw := { own := k, adds := adds }, elts := elts } }
+    | "phase" :: n :: rest =>
+      let (k, r1) := parseK rest
+      let (body, r2) := parsePairs r1
+      let (adds, _) := parsePairs r2
+      db := { db with phases := db.phases.insert n { name := n, body := body, raw := { own := k, adds := adds } } }
+    | ["enddb"] => db := finishDb db
+    | "kcalc" :: t :: p :: rest => out.putStrLn s!"kcalc {fx (kCalc (parseK9 rest) (hx t) (hx p))}"
+    | ["case", id] => cur := { id := id }
+    | ["g", t, p, mu, w, tol, mt, ws, pc] =>
+      cur := { cur with T := hx t, P := hx p, mu := hx mu, W := hx w, tol := hx tol, minTotal := hx mt,
+                        waterSwitch := ws == "1", phIsCb := pc == "1" }
+    | ["use", s] => cur := { cur with use := cur.use.insert s () }
+    | ["rw", m, m0, p, pe] => cur := { cur with rw := cur.rw.push (m, m0, p, pe) }
+    | "pe" :: n :: rest => cur := { cur with pe := cur.pe.insert n (parsePairs rest).1 }
+    | "pk" :: n :: rest => cur := { cur with pk := cur.pk.insert n (parseK9 rest) }
+    | ["sp", n, lm, lg, la, mo] => cur := { cur with sp := cur.sp.push (n, hx lm, hx lg, hx la, hx mo) }
+    | ["ph", n] => cur := { cur with phs := cur.phs.push n }
+    | ["u", t, mo, f, r, a] =>
+      cur := { cur with us := cur.us.push { type := utype t, moles := hx mo, f := hx f, resid := hx r, aux := hx a } }
+    | ["endcase"] => runCase db cur out; cur := {}
+    | [] => pure ()
+    | _ => out.putStrLn s!"bad-line {line.trimAscii.toString}"
+  out.flush
 
 end Driver.Speciate
